@@ -4,6 +4,7 @@ outcome in meta.json under `recheck`. usage: tools/seed_recheck.py [name ...] [-
 import json, os, subprocess, sys, time
 VERIF = os.path.dirname(os.path.dirname(os.path.abspath(__file__)))
 args = [a for a in sys.argv[1:] if not a.startswith("--")]
+seeds = next((a.split("=", 1)[1].split(",") for a in sys.argv[1:] if a.startswith("--seeds=")), ["1"])
 tier = "thorough" if "--thorough" in sys.argv else "quick"
 sd = os.path.join(VERIF, "seeded")
 def sh(c): return subprocess.run(c, shell=True, text=True, capture_output=True)
@@ -21,9 +22,13 @@ for name in sorted(os.listdir(sd)):
         out = {}
         for prop in meta.get("also_props", [meta["property"]]) if isinstance(meta.get("also_props"), list) else [meta["property"]]:
             t0 = time.time()
-            r = sh(f"cd {VERIF} && VERIF_REPO={wt} VERIF_EVIDENCE_DIR={wt}/.ev ./run {prop} --tier {tier}")
-            b = [l.strip()[7:] for l in r.stdout.splitlines() if l.strip().startswith("bucket=")]
-            out[prop] = {"exit": r.returncode, "detected": r.returncode == 1 and "VIOLATION" in r.stdout, "buckets": b[:5], "tier": tier, "wall_s": round(time.time() - t0, 1)}
+            per_seed = {}
+            b = []
+            for sd in seeds:
+                r = sh(f"cd {VERIF} && VERIF_SEED={sd} VERIF_REPO={wt} VERIF_EVIDENCE_DIR={wt}/.ev ./run {prop} --tier {tier}")
+                per_seed[sd] = r.returncode == 1 and "VIOLATION" in r.stdout
+                b = b or [l.strip()[7:] for l in r.stdout.splitlines() if l.strip().startswith("bucket=")]
+            out[prop] = {"exit": r.returncode, "detected": all(per_seed.values()), "per_seed": per_seed, "buckets": b[:5], "tier": tier, "wall_s": round(time.time() - t0, 1)}
         meta["recheck"] = {"repo_head": sh("git -C /repo log --format=%h -1").stdout.strip(), "verif_head": sh(f"git -C {VERIF} log --format=%h -1").stdout.strip(), "results": out}
         json.dump(meta, open(os.path.join(d, "meta.json"), "w"), indent=1)
         print(name, {k: (v["detected"], v["buckets"][:2]) for k, v in out.items()})
